@@ -89,8 +89,27 @@ LetterKey(fin) ==
     [] fin = 69 -> "KP_BEGIN" [] fin = 70 -> "END" [] fin = 72 -> "HOME"
     [] fin = 80 -> "F1" [] fin = 81 -> "F2" [] fin = 82 -> "F3" [] fin = 83 -> "F4"
 
-(* SS3 <letter>  (application cursor keys, PF1-PF4) *)
-SS3Finals == {65, 66, 67, 68, 70, 72, 80, 81, 82, 83}
+(* SS3 <final>.  Application cursor keys (DECCKM: the CSI letter keys A-F, H *)
+(* with SS3 in place of CSI; E is Begin, the keypad 5 without Num Lock),     *)
+(* PF1-PF4, and the application keypad (DECKPAM; xterm ctlseqs "VT220-Style  *)
+(* Function Keys", keypad table, column Application):                        *)
+(*   Enter M   * j   + k   , l   - m   . n   / o   0..9 p..y   = X           *)
+(* The keys are the keypad keys of the kitty functional key table (the comma *)
+(* key is KP_SEPARATOR, the period key KP_DECIMAL).  The table also lists    *)
+(* Space (SS3 SP) and Tab (SS3 I) "on the keypad"; no keyboard in the kitty  *)
+(* table has such keys, so these two finals are left without a meaning here. *)
+KeypadFinals == {77, 88} \cup (106..121)
+KeypadKey(fin) ==
+  CASE fin = 77 -> "KP_ENTER" [] fin = 88 -> "KP_EQUAL"
+    [] fin = 106 -> "KP_MULTIPLY" [] fin = 107 -> "KP_ADD" [] fin = 108 -> "KP_SEPARATOR"
+    [] fin = 109 -> "KP_SUBTRACT" [] fin = 110 -> "KP_DECIMAL" [] fin = 111 -> "KP_DIVIDE"
+    [] fin >= 112 /\ fin <= 121 ->
+         <<"KP_0", "KP_1", "KP_2", "KP_3", "KP_4", "KP_5", "KP_6", "KP_7", "KP_8", "KP_9">>[fin - 111]
+SS3Finals == LetterFinals \cup KeypadFinals
+SS3Key(fin) == IF fin \in LetterFinals THEN LetterKey(fin) ELSE KeypadKey(fin)
+(* A final to which no table assigns a key: the report has no specified      *)
+(* meaning, whatever is made of it is not judged (only a crash would be).    *)
+SS3Unassigned == (32..126) \ SS3Finals
 
 (* CSI <n> [; mods] ~  (xterm VT220-style editing/function keys, rxvt 7/8, *)
 (* kitty 57427 ~).                                                         *)
@@ -199,13 +218,20 @@ C0Alts(b) ==
 C0Unambiguous(b) == C0Alts(b) = {}
 
 (* --- ESC prefix ----------------------------------------------------- *)
-(* ESC followed by a byte that completes a two-byte escape sequence and *)
-(* does not introduce a longer control function (ECMA-48: O = SS3,      *)
-(* P = DCS, X = SOS, [ = CSI, ] = OSC, ^ = PM, _ = APC; 02/00-02/15 are *)
-(* intermediates) is Alt + the key the byte alone would mean.  Alt      *)
-(* chords generate no text.                                             *)
+(* ESC followed by the byte of a text key is Alt + the key the byte     *)
+(* alone would mean (kitty legacy section: "alt + key is ESC followed   *)
+(* by the key's bytes"; xterm metaSendsEscape).  Alt chords generate no *)
+(* text.  Excluded are the bytes with which a terminal's own reports    *)
+(* start after ESC (O = SS3, P = DCS, X = SOS, [ = CSI, ] = OSC,        *)
+(* ^ = PM, _ = APC): there the two readings cannot be told apart from   *)
+(* the bytes.  02/00-02/15 (space and the punctuation ! " # ... /) are  *)
+(* intermediate bytes of ECMA-48 escape sequences, but no keyboard      *)
+(* report starts with ESC + intermediate: as input the two bytes are    *)
+(* complete and mean Alt + the key.  (EscIntermediates names the class  *)
+(* for reports.)                                                        *)
 EscIntroducers == {79, 80, 88, 91, 93, 94, 95}
-EscDomain == (48..127) \ EscIntroducers
+EscIntermediates == 32..47
+EscDomain == (32..127) \ EscIntroducers
 DecodeEsc(b, fs) ==
   LET k == DecodeText(<<b>>, fs) IN [AddMods(k, Alt) EXCEPT !.text = <<>>]
 
@@ -269,7 +295,7 @@ Canon(e, fs) ==
     [] e.k = "c0" -> C0Canon(e.b)
     [] e.k = "esc" -> DecodeEsc(e.b, fs)
     [] e.k = "escc0" -> AddMods(C0Canon(e.b), Alt)
-    [] e.k = "ss3" -> Plain(FK(LetterKey(e.b)))
+    [] e.k = "ss3" -> Plain(FK(SS3Key(e.b)))
     [] e.k = "csi" -> DecodeCSI(e)
 
 Alts(e) ==
